@@ -1086,6 +1086,29 @@ pub fn gen_control(rng: &mut Rng, d: &Driver, pv: &mut PeerView) -> Option<Value
             pv.goaway_lasts.push(last);
             pv.sent_goaway = true;
             let op = peer_bytes(wire::goaway(last, code, &dbg), json!({"t":"GOAWAY","last":last,"code":code,"debug":dbg}));
+            if client && rng.chance(1, 3) {
+                // the two-step shutdown of a server seen from the client: a GOAWAY covering everything in flight, then one
+                // with a lower id; each followed by a PING (whose PONG proves the GOAWAY was processed) and polls of
+                // every response future
+                let hs: Vec<usize> = (0..d.handles.len()).filter(|&i| d.handles[i].resp.is_some()).collect();
+                let top = hs.iter().map(|&i| d.handles[i].sid).max().unwrap_or(1);
+                let first = *rng.pick(&[0x7fff_ffffu32, top, top]);
+                let second = if top >= 3 { top - 2 * (1 + rng.below(((top - 1) / 2) as u64) as u32) } else { 0 };
+                pv.goaway_lasts.pop();
+                pv.goaway_lasts.push(first);
+                pv.goaway_lasts.push(second);
+                let p1 = [rng.byte(), 9, 9, 9, 9, 9, 9, rng.byte()];
+                let p2 = [rng.byte(), 8, 8, 8, 8, 8, 8, rng.byte()];
+                pv.queue.push_back(json!({"op":"write_mode","mode":"all"}));
+                pv.queue.push_back(peer_bytes(wire::ping(false, p1), json!({"t":"PING","ack":false,"payload":p1})));
+                pv.queue.push_back(json!({"op":"conn_poll"}));
+                pv.queue.push_back(peer_bytes(wire::goaway(second, code, b"second"), json!({"t":"GOAWAY","last":second,"code":code,"debug":[115,101,99,111,110,100]})));
+                pv.queue.push_back(peer_bytes(wire::ping(false, p2), json!({"t":"PING","ack":false,"payload":p2})));
+                pv.queue.push_back(json!({"op":"conn_poll"}));
+                pv.queue.push_back(json!({"op":"conn_poll"}));
+                for &h in &hs { pv.queue.push_back(json!({"op":"poll_response","h":h})); }
+                return Some(peer_bytes(wire::goaway(first, code, &dbg), json!({"t":"GOAWAY","last":first,"code":code,"debug":dbg})));
+            }
             if rng.chance(1, 4) {
                 // a second one right behind
                 let last2 = if rng.chance(1, 4) { last.saturating_add(2) } else { last.saturating_sub(*rng.pick(&[0u32, 2, 4])) };
@@ -1199,6 +1222,32 @@ pub fn run_random(d: &mut Driver, rng: &mut Rng, p: &Profile, steps: usize) {
             d.exec(&op);
             done += 1;
             continue;
+        }
+        if p.queue && d.cfg.role_client {
+            if let Some(op) = pv.queue.pop_front() {
+                log_op(&op);
+                d.exec(&op);
+                done += 1;
+                continue;
+            }
+            if !ended && rng.chance(1, 25) {
+                // C07: a task waits in poll_ready behind a queued request that the application then cancels, and the
+                // connection ends (cleanly, abruptly, or by dropping the connection object)
+                let sr_n = if let Endpoint::Client { sr, .. } = &d.ep { sr.len() } else { 1 };
+                let sr = rng.below(sr_n as u64);
+                let h0 = d.handles.len();
+                let mut m = vec![json!({"op":"send_request","sr":sr,"eos":false,"method":"POST"}),
+                                 json!({"op":"conn_poll"}),
+                                 json!({"op":"send_request","sr":sr,"eos":false,"method":"POST"})];
+                if rng.chance(2, 3) { m.push(json!({"op":"send_reset","h":h0 + 1,"code":8})); }
+                m.push(json!({"op":"poll_ready","sr":sr}));
+                if rng.chance(1, 2) { m.push(json!({"op":"conn_poll"})); }
+                m.push(match rng.below(3) { 0 => json!({"op":"eof"}), 1 => json!({"op":"drop_conn"}), _ => json!({"op":"read_fail"}) });
+                m.push(json!({"op":"conn_poll"}));
+                ended = true;
+                pv.queue.extend(m);
+                continue;
+            }
         }
         if p.late_reset {
             if let Some(op) = pv.queue.pop_front() {
